@@ -50,11 +50,13 @@ PROPS["C06"] = {
     "level_text": "Theorems (Props/C06.v): for every identifier and every payload of 0..2048 bytes new_message yields a wf_frame that validate accepts, whose accessors read back identifier/length/payload, extended exactly from 255 bytes, zero checksum, and which the reference segmentation (to which C01 reduces every read fragmentation) delivers unchanged; is_error/error_code characterised on every accepted frame. General proofs. Correspondence: every payload length 0..2048 (thorough; quick: every length to 300 then every 9th) and all 256 error codes against NewMessage/Validate/bufio.Scanner.",
     "level_note": "Trusted: Coq kernel, hand-written model of NewMessage (validated by correspondence), harness. No axioms. For Message.Validate and ScanMessages: Tie T (Tie/BytesAgree.v): the function as REGENERATED statement by statement from the Go source on every run (Gen/Bytes.v, every index/slice a possible panic) is proved equal to the hand-written model on every input, so the theorems speak about the current source; the correspondence runs then only validate the translator and the slice-capacity abstraction.",
     "technique": "Rocq proof over hand-written Gallina model + exhaustive-by-length correspondence (vm_compute)",
-    "tie_files": ["Tie/ClientAgree.v", "Tie/ClientScannerOk.v", "Tie/BytesAgree.v"],
+    "tie_files": ["Tie/ClientAgree.v", "Tie/ClientScannerOk.v", "Tie/EmulatorScannerOk.v", "Tie/BytesAgree.v"],
     "props_file": "Props/C06.v",
-    "eval_modules": ["Run.EvalFrame", "Run.EvalClient"],
-    "imports": ["XS.Lib.Bufio", "XS.Spec.ClientOps"],
+    "eval_modules": ["Run.EvalFrame", "Run.EvalClient", "Run.EvalEmu"],
+    "imports": ["XS.Lib.Bufio", "XS.Spec.ClientOps", "XS.Model.Emulator"],
     "kinds": {"newmsg": {"type": "case_newmsg", "chk": "chk_newmsg", "sig": "sig_newmsg", "scope": "N_scope"},
+              "validate": {"type": "case_validate", "chk": "chk_validate", "sig": "sig_validate", "scope": "N_scope"},
+              "emu": {"type": "case_emu", "chk": "chk_emu", "sig": "sig_emu", "scope": "N_scope"},
               "client": {"type": "case_client", "chk": "chk_client", "sig": "sig_client", "scope": "N_scope"}},
     "rule": "NewMessage(mid, payload): boundary lengths x identifiers, every length (see tier), adversarial content (FA FF runs, embedded frames), all 256 error codes; observable = frame bytes, Validate verdict, tokens a real bufio.Scanner(ScanMessages) delivers under several read fragmentations (whole, byte by byte, one cut at each of the first 7 positions and before the checksum, a cut with an empty read, the frame twice with the second header split after its preamble), all accessors; non-trivial = payload non-empty / boundary length class / error identifier / contains FA; distinct = distinct case terms",
     "trusted": FRAME_TRUSTED,
@@ -65,10 +67,12 @@ PROPS["C07"] = {
     "level_text": "Theorems (Props/C07.v): packet_at returns exactly sub payload i (3+len) or 'insufficient', never out of bounds, for every payload and every offset; the returned packet lies inside the payload; walking a concatenation of packets recovers exactly them and ends at the payload's end (induction over the packet list); each step consumes >= 3 bytes; the constructor is correct for all lengths 0..255 and identifiers. Correspondence: alphabet-exhaustive payloads x all offsets x both capacities, random walks, all 256 constructor lengths.",
     "level_note": "Trusted: Coq kernel, hand-written model of mtdata2.go (validated by correspondence), Go slice model, harness. No axioms. For MTData2.PacketAt: Tie T (Tie/BytesAgree.v): the function as REGENERATED statement by statement from the Go source on every run (Gen/Bytes.v, every index/slice a possible panic) is proved equal to the hand-written model on every input, so the theorems speak about the current source; the correspondence runs then only validate the translator and the slice-capacity abstraction.",
     "technique": "Rocq proof (induction over packet lists) over hand-written Gallina model + exhaustive/differential correspondence",
-    "tie_files": ["Tie/BytesAgree.v"],
+    "tie_files": ["Tie/BytesAgree.v", "Tie/ClientAgree.v", "Tie/ClientScannerOk.v"],
     "props_file": "Props/C07.v",
-    "eval_module": "Run.EvalFrame",
+    "eval_modules": ["Run.EvalFrame", "Run.EvalClient"],
+    "imports": ["XS.Lib.Bufio", "XS.Spec.ClientOps"],
     "kinds": {
+        "client": {"type": "case_client", "chk": "chk_client", "sig": "sig_client", "scope": "N_scope"},
         "pktat": {"type": "case_pktat", "chk": "chk_pktat", "sig": "sig_pktat", "scope": "N_scope"},
         "walk": {"type": "case_walk", "chk": "chk_walk", "sig": "sig_walk", "scope": "N_scope"},
         "newpkt": {"type": "case_newpkt", "chk": "chk_newpkt", "sig": "sig_newpkt", "scope": "N_scope"},
@@ -187,6 +191,7 @@ PROPS["C09"] = {
     "eval_modules": ["Run.EvalClient", "Run.EvalConfig"],
     "imports": ["XS.Lib.Bufio", "XS.Spec.ClientOps"],
     "kinds": {"client": CLIENT_KIND,
+              "counm": {"type": "case_counm", "chk": "chk_counm", "sig": "sig_counm", "scope": "N_scope"},
               "ocunm": {"type": "case_ocunm", "chk": "chk_ocunm", "sig": "sig_ocunm", "scope": "N_scope"}},
     "rule": CLIENT_RULE + "C09 generators: arbitrary protocol-heavy byte streams, uniformly random bytes, grammar-mutated valid traffic, bit-flipped windows of the five recorded captures, extended-length measurement messages whose packets tile 256 bytes; the documented loop run adaptively to the terminal error (three more receives after it), scanning also after rejected frames and after false steps",
     "trusted": CLIENT_TRUSTED,
@@ -336,3 +341,27 @@ PROPS["C18"] = {
     "trusted": ["deterministic drive of the receive loop: a frame is fed only when the loop waits for input"],
     "assumptions": ["events are sequential (C17 covers concurrent use)"],
 }
+
+# ---- ties of the shared models: an obligation of EVERY property whose cases or theorems go through that code, not only of
+# the property that "owns" the function (the seeded changes of rounds 3-5 were mostly changes in shared code) ----
+_CLIENT = ["Tie/ClientScannerOk.v", "Tie/BytesAgree.v", "Tie/ClientAgree.v"]
+_EXTRA_TIES = {
+    "C01": _CLIENT + ["Tie/CommandsAgree.v"],
+    "C02": _CLIENT + ["Tie/CommandsAgree.v"],
+    "C04": _CLIENT + ["Tie/LayoutsAgree.v", "Tie/ConfAgree.v", "Tie/EmuAgree.v"],
+    "C05": ["Tie/LayoutsAgree.v"],
+    "C06": _CLIENT + ["Tie/CommandsAgree.v", "Tie/EmuAgree.v"],
+    "C07": _CLIENT,
+    "C10": _CLIENT + ["Tie/CommandsAgree.v"],
+    "C11": _CLIENT + ["Tie/ConfAgree.v", "Tie/EmuAgree.v"],
+    "C12": _CLIENT,
+    "C13": _CLIENT + ["Tie/CommandsAgree.v"],
+    "C15": _CLIENT + ["Tie/CommandsAgree.v"],
+    "C17": ["Tie/EmuAgree.v"],
+    "C19": _CLIENT + ["Tie/LayoutsAgree.v"],
+}
+for _pid, _ties in _EXTRA_TIES.items():
+    _cur = PROPS[_pid].setdefault("tie_files", [])
+    for _t in _ties:
+        if _t not in _cur:
+            _cur.append(_t)
